@@ -1,21 +1,30 @@
 /-
 C15 — "when an endpoint's pool loses or regains connectivity, routing follows": whenever the monitor
 goroutine is blocked (nothing left for it to do), every MultiEndpoint has been told the pool's
-*current* state — for every interleaving of state changes and monitor moves.
+*current* state — for every interleaving of state changes, monitor moves and status updates of
+UpdateMultiEndpoints.
 -/
 import GcpVerif.Model.Monitor
 import GcpVerif.Generated.Consts
 namespace GcpVerif.Monitor
 
-/-- while the monitor sleeps on `v`, `v` is what it told the MultiEndpoints -/
-def Inv (s : St) : Prop := ∀ v, s.pc = .wait v → s.told = some v
+/-- while the monitor sleeps on `v`, `v` is what it told the MultiEndpoints, and what they believe -/
+def Inv (s : St) : Prop := ∀ v, s.pc = .wait v → s.told = some v ∧ s.seen = some v
 
 theorem inv_step {s : St} (h : Inv s) (st : Step) : Inv (step s st) := by
   cases st with
   | env c => intro v hv; exact h v hv
+  | sync =>
+    -- the status update wakes the monitor: it is not waiting afterwards
+    intro v hv
+    simp only [step] at hv
+    cases hp : s.pc with
+    | read => rw [hp] at hv; cases hv
+    | notify w => rw [hp] at hv; cases hv
+    | wait w => rw [hp] at hv; cases hv
   | mon =>
     cases hp : s.pc with
-    | read => intro v hv; simp [step, hp] at hv
+    | read => intro v hv; simp only [step, hp, Pc.wait.injEq] at hv; simp [step, hp, hv]
     | notify w =>
       intro v hv
       simp only [step, hp, Pc.wait.injEq] at hv
@@ -34,8 +43,9 @@ theorem inv_run (c : Nat) (l : List Step) : Inv (run (init c) l) := by
   | nil => intro s h; exact h
   | cons x xs ih => intro s h; exact ih _ (inv_step h x)
 
-/-- **C15** no missed update: for every history of connection-state changes and monitor moves, if the
-    monitor is blocked then the MultiEndpoints were last told exactly the connection's current state -/
+/-- **C15** no missed update: for every history of connection-state changes, monitor moves and status
+    updates, if the monitor is blocked then the MultiEndpoints were last told exactly the connection's
+    current state -/
 theorem blocked_means_told (c : Nat) (l : List Step) (hb : blocked (run (init c) l) = true) :
     (run (init c) l).told = some (run (init c) l).conn := by
   have h := inv_run c l
@@ -47,7 +57,7 @@ theorem blocked_means_told (c : Nat) (l : List Step) (hb : blocked (run (init c)
   | wait w =>
     rw [hp] at hb
     have : s.conn = w := by simpa using hb
-    rw [this]; exact h w hp
+    rw [this]; exact (h w hp).1
 
 /-- … and the monitor is never blocked for another reason: it can always move unless it sleeps on the
     current state -/
@@ -63,14 +73,52 @@ theorem progress (s : St) (hnb : blocked s = false) : step s .mon ≠ s := by
     simp only [hne, ↓reduceIte]
     intro h; have := congrArg St.pc h; simp [hp] at this
 
+/-- **C15** a report never contradicts the pool: what the monitor tells the MultiEndpoints is the state
+    the connection is in at that very step (it cannot undo a newer report with an older sample) -/
+theorem report_is_current (s : St) (hp : s.pc = .read) : (step s .mon).told = some s.conn := by
+  simp [step, hp]
+
+/-- (F35) with the loop the code had before — read, then tell after waiting for the lock — a status
+    update in between was undone: the MultiEndpoints are told 0 while the pool is in state 1
+    (kernel-checked history; the monitor corrects it one iteration later, which for a MultiEndpoint with
+    a switching delay means a detour of that length) -/
+theorem split_read_undoes_sync :
+    let s := [Step.mon, .env 1, .sync, .mon].foldl stepSplit (init 0)
+    s.conn = 1 ∧ s.told = some 0 := by decide
+
+/-- (F36) with a status update that tells the pool's state and lets the monitor sleep, a state that
+    comes and goes while the monitor is between `notify` and `WaitForStateChange` stays with the
+    MultiEndpoints: the monitor is blocked on state 1, the pool is in state 1, the MultiEndpoints
+    believe 0 — until the next change -/
+theorem sync_read_missed_update :
+    let s := [Step.mon, .env 0, .sync, .env 1].foldl stepSyncReads (init 1)
+    blocked s = true ∧ s.conn = 1 ∧ s.told = some 0 := by decide
+
 /-- the variant that re-reads the state for the wait misses an update (kernel-checked witness): the
     state changes between `notify` and the wait, and the monitor sleeps on a state nobody was told -/
 theorem reread_misses_update :
     let s := [Step.mon, .env 1, .mon].foldl stepReread (init 0)
     blocked s = true ∧ s.told = some 0 ∧ s.conn = 1 := by decide
 
-/-- **C15 (per run)** the monitor loop of the current sources reads the state once per iteration and
-    notifies and waits with that same value — the shape `step` models -/
+/-- **C15 (per run)** the monitor loop of the current sources obtains the state once per iteration, from
+    `notify()`, and waits with that same value — the shape `step` models -/
 theorem monitor_loop_shape : GcpVerif.Generated.monitorWaitsOnNotifiedState = true := by decide
+
+/-- **C15 (per run, F35)** `notify` reads the state, remembers it, tells it and returns it under the
+    GCPMultiEndpoint's read lock: reading and telling are one step with respect to the status update -/
+theorem monitor_reads_state_under_lock : GcpVerif.Generated.monitorReadsStateUnderLock = true := by decide
+
+/-- **C15 (per run, F36)** after telling the MultiEndpoints the pools' states, UpdateMultiEndpoints ends
+    the current wait of every monitor (`wake`, the cancel function of the context the monitor passes to
+    WaitForStateChange, handed over inside `notify` under the lock) -/
+theorem status_update_wakes_monitors : GcpVerif.Generated.statusUpdateWakesMonitors = true := by decide
+
+/-- **C15 (per run, F34)** the status update tells every MultiEndpoint of the options about that
+    MultiEndpoint's own endpoints, in the order of its list (`GME.tellOwn` in the model) -/
+theorem status_update_in_priority_order : GcpVerif.Generated.statusUpdateInPriorityOrder = true := by decide
+
+/-- **C15 (when the call returns)** right after the status update the MultiEndpoints believe the state the
+    pool is in at that moment -/
+theorem sync_tells_current (s : St) : (step s .sync).told = some s.conn := rfl
 
 end GcpVerif.Monitor
